@@ -110,7 +110,7 @@ def canon_spec(spec: tuple) -> tuple:
 
 
 def _canon_src_idx(i: int) -> tuple:
-    return ("MemoryTextSource", f"mem://verif/{i}", "<memory>", TEXTS[i])
+    return ("MemoryTextSource", f"mem://verif/{i}", "<memory>")
 
 
 def canon_source(s: Any) -> tuple:
@@ -119,7 +119,8 @@ def canon_source(s: Any) -> tuple:
         return ("NoSource",)
     if tn == "SourceSet":
         return ("SourceSet", tuple(canon_source(x) for x in s.sources))
-    return (tn, s.source_uri, s.source_type, s.get_raw() if tn in ("MemoryTextSource", "TextSource") else None)
+    # the raw text is not part of a source's identity (compare=False) and is not serialized
+    return (tn, s.source_uri, s.source_type)
 
 
 def canon_position(p: Any) -> tuple:
